@@ -11,6 +11,9 @@ Correspondence (implementation vs the Lean model through the driver):
   F  the CLI `fieldcompare._cli.main(["file", a.pvd, b.pvd, ...])`: exit code and the ordered
      step comparisons performed (calls of `_compare_field_data`, NOT log text), lengths 1..8, deviating step (value / mesh / missing field) at every
      position, all three sequence options; sequence vs single data set; (thorough) XDMF time series
+  F2/FX/I2 (phase 6 G, harness/fcv/c15_seqscen_p6g.py) re-written paths, the same file in both roles, lengths > 10,
+     repeated pieces, piece paths, time values, per-step meshes, cwd-relative names; XDMF through the CLI in the quick
+     tier; several sequence objects alive at once with unrelated reads in between
   IX (phase 5) the iteration machine on REAL XDMF time series written with meshio's TimeSeriesWriter (heavy data in
      HDF5, inlined XML, raw binary), lengths 1..5: directed call histories on ONE sequence object (complete pass twice
      / three times, pass suspended at the last step then complete pass, partial then complete passes, zip-style
@@ -760,7 +763,9 @@ def run(ctx):
     ctx.rule = ("T: every (status, test list <= 2) of TestSuite; I: (carrier custom/pvd/xdmf (HDF5, XML, binary heavy data), n, initial cursor, number of generators, "
                 "history of next() calls: sequential full/abandoned iterations or interleaved); M: (options, lengths, initial "
                 "cursors, prescribed per-step suites incl. one deviating step at first/last/random position); F: (result and "
-                "reference step variants, options) through the CLI on generated .pvd/.vtu files; non-trivial = at least one "
+                "reference step variants, options) through the CLI on generated .pvd/.vtu files; F2/FX/I2 (phase 6 G): re-written paths, "
+                "same file in both roles, n > 10, repeated pieces, piece paths, time values, per-step meshes, XDMF through the CLI, "
+                "several live sequence objects with unrelated reads in between; non-trivial = at least one "
                 "step is iterated/compared; distinct = distinct model input line (+ carrier / file variants)")
     ctx.assumptions += [
         "per-step comparison outcome (`_compare_field_data`) is an external fact: prescribed (part M) or measured with the "
@@ -777,6 +782,9 @@ def run(ctx):
         part_IX(ctx)
         part_M(ctx)
         part_F(ctx, files)
+        from fcv import c15_seqscen_p6g as P6G      # (phase 6 G) directed batches F2 / FX / I2: notes/PHASE6_G2_C15.md
+        import sys
+        P6G.run_batches(ctx, sys.modules[__name__])
         if ctx.tier == "thorough":
             part_X(ctx)
     finally:
@@ -856,6 +864,10 @@ def replay_case(ctx, c):
             rep = ctx.lean([enc_file(c, facts)])[0] if ctx.driver_ok else None
             print("replay: impl", got, "step facts", facts, "lean", rep)
             check_file(ctx, c, got, facts, rep)
+        elif part in ("F2", "FX", "FX-mixed", "I2"):
+            from fcv import c15_seqscen_p6g as P6G
+            import sys
+            P6G.replay_case(ctx, sys.modules[__name__], c)
         elif part == "F-mixed":
             pv = files.pvd([(s, 0) for s in range(c["n"])])
             pair = [pv, files.step(0, 0)] if c["order"] == 0 else [files.step(0, 0), pv]
